@@ -7,14 +7,6 @@ From AIT Require Import Base.Qx Base.Mdp Base.MdpExec C02.Model C02.Spec C02.Pro
 Import ListNotations.
 Local Open Scope Q_scope.
 
-Lemma veq_pointwise : forall v w n, length v = n -> length w = n ->
-  (forall s, (s < n)%nat -> nthq v s == nthq w s) -> veq v w.
-Proof.
-  induction v as [|x v IH]; intros [|y w] n Hv Hw H; cbn in Hv, Hw; subst; try discriminate; constructor.
-  - apply (H 0%nat). lia.
-  - apply (IH w (length v)); [reflexivity| lia|]. intros s Hs. apply (H (S s)). lia.
-Qed.
-
 Lemma Forall2_map_r : forall (A B C : Type) (P : A -> C -> Prop) (f : B -> C) l1 l2,
   Forall2 P l1 (map f l2) <-> Forall2 (fun a b => P a (f b)) l1 l2.
 Proof.
